@@ -11,7 +11,11 @@ spec:      spec/DpkgVersion.tla    pure operators over code points: dpkg referen
            spec/TraceDpkgVersion.tla  trace validation on concrete code points
            spec/DpkgVersionObj.tla object-level layer: object = [full, cached key]; Assign* (full_version /
                                    epoch / upstream_version / debian_revision) recompute the key; KeyFresh,
-                                   Agree, HashConsistent in the closed state space; prints MUT lines
+                                   Agree, HashConsistent in the closed state space; prints MUT lines.
+                                   Derive21 / Derive12: one object is DERIVED from the other, live one
+                                   (variable kin); the two are independent from then on (action property
+                                   Independent, invariant Related): an assignment to one never changes how
+                                   the other compares / hashes
 binding:   (a) spec -> code: the CASE lines -- ALL 24 025 pairs of part strings of <= 3 characters over
                0 1 a . ~ (MC_DpkgVersion_exh.cfg), each in upstream AND in revision position (TLC invariant
                RevPosition), ALL pairs of the triples configuration, and a checksum-selected sample of the big
@@ -23,13 +27,32 @@ binding:   (a) spec -> code: the CASE lines -- ALL 24 025 pairs of part strings 
                re-created between the rounds), with a plain-string operand on either side, and on fresh
                temporaries that die after each operator (id() reuse).  The MUT lines are replayed as
                compare - assign (full_version or one component) - compare again on the same object.
+               RELATED objects (MUT / REJ lines with kin "2from1" / "1from2", ALL accepted assignments of the
+               closed space, every second refused one): b is derived from the live object a -- or a from the
+               pooled object b -- through a rotating public way (Version(o), NativeVersion(o),
+               changelog.Version(o), Version(BaseVersion(o)), copy.copy, copy.deepcopy, pickle,
+               ChangeBlock(version=o).version), both stay alive, a is assigned, and then a AND b must compare and
+               hash as TLC says for the strings they hold, also against fresh objects of their own strings.
            (b) code -> spec: random and near-equal pairs / triples / quadruples over the full valid
                alphabet are run through the real code -- pooled objects, string operands, fresh
                temporaries, an object MUTATED through every string of the trace (full_version and
                component-wise), BOUNDARY-MOVING component assignments (revision / epoch set to None with
                '-' / ':' in the upstream part, '-' / ':' brought in by the assigned value: the string then
                splits elsewhere), then everything again on partly re-created objects -- and every recorded
-               comparison is validated by TLC against the string the object holds at that moment
+               comparison is validated by TLC against the string the object holds at that moment.
+               Related objects occur inside these ordinary histories: the walking object m is (two traces of
+               three) derived from the live long-lived object 0, which goes on being compared after every
+               assignment to m; before each assignment a snapshot is derived from m and compared afterwards
+               (with m, with a fresh object of its own string; the first snapshot survives the whole walk);
+               the object of every boundary-moving / refused assignment has a live twin (alternately its
+               source and its copy) that is compared after the assignment as the OLD string says
+           file-object kinds and block alignment (notes/SIZE_STRESS.md part 4): wherever a changelog text is
+               parsed (constructor variant "Changelog.version", the Changelog lookup of every trace) it is handed
+               in as str / bytes / StringIO / BytesIO / list and generators of lines / real files (text;
+               binary unbuffered) / BufferedReader over short reads / GzipFile / BZ2File / LZMAFile /
+               SpooledTemporaryFile, and on a third (constructor variant: a quarter) of the cases a change line is padded so that the header line
+               carrying the version (or the whole text) ends one before / at / one after 512 ... 8192, now and
+               then 16384 ... 131072 (ctx.extra file_object_kinds, aligned_cases); the result is form-independent
            size dimension (notes/SIZE_STRESS.md), in both legs: every 4th replayed case is concretized by
                a SOUND size transformation of the abstract pair (argument at stress_part): every non-digit
                character repeated k times (k up to 50: long letter runs, '~' chains), z zeros appended to
@@ -54,7 +77,10 @@ spec-level negative controls (re-run in every check, TLC must report the violati
            NoResplit = TRUE (object layer: after a component assignment the recomposed string is not split
            again: stale components after a boundary move) -> Agree, HashConsistent violated;
            PartialOnReject = TRUE (object layer: a rejected assignment leaves the assigned components
-           behind before it raises) -> Agree, HashConsistent violated
+           behind before it raises) -> Agree, HashConsistent violated;
+           SharedOnCopy = TRUE (object layer: a derived object shares the parsed components with its source; a
+           component assignment to one is written into what the other reads) -> Agree, HashConsistent violated
+           (also Independent, KeyFresh; tried by hand)
 API surface (notes/API_SURFACE.md): every public way of building, comparing, ordering, hashing and mutating
 versions, and where it is exercised (all in the quick tier, rotating; same TLC verdicts; the objects of
 one chunk / trace come from DIFFERENT variants and are queried through all of them):
@@ -68,11 +94,20 @@ one chunk / trace come from DIFFERENT variants and are queried through all of th
   Version(Version) / Version(BaseVersion) / NativeVersion(Version)   replay pool, traces ("copy of Version" ...)
   debian.changelog.Version (re-export)                    replay pool, traces ("changelog.Version")
   ChangeBlock(version=s).version                          replay pool, traces ("ChangeBlock.version")
-  Changelog(text).version / get_version() / versions      replay pool, traces ("Changelog.version", rare: parse cost)
+  Changelog(text).version / get_version() / versions      replay pool, traces ("Changelog.version", rare: parse cost);
+                                                          text as str / bytes / text and binary file objects of every
+                                                          kind / iterables of lines, block-aligned (FILE_KINDS)
   Changelog[str] / Changelog[Version] (lookup by ==)      traces: coll.clidx, judged by TLC (first equal block)
   Packages({'Version': s}).get_version() (deb822 mixin)   replay pool, traces ("deb822 get_version"); Dsc/Changes/
                                                           BuildInfo share the same mixin method
   pickle.loads(pickle.dumps(v)), copy.copy, copy.deepcopy replay pool, traces ("pickle", "copy", "deepcopy")
+  the same ways applied to a LIVE object that stays in use and is assigned afterwards / whose copy is
+  assigned afterwards (Version(o), NativeVersion(o), changelog.Version(o), Version(BaseVersion(o)),
+  copy.copy(o), copy.copy(Version(o)), copy.deepcopy(o), pickle, ChangeBlock(version=o).version)
+                                                          MUT / REJ replay with kin (derive), trace walk (m derived
+                                                          from object 0, snapshots of m), twins of the boundary /
+                                                          reject traces; both directions (source or copy assigned)
+  two objects built independently from the SAME string, one assigned    MUT lines with v1 = v2 and kin "none"
   < <= == != >= > on Version/Version                      every battery / event
   ... with a str operand on either side                   battery variants, trace events
   ... with a BaseVersion right operand                    battery variant
@@ -95,9 +130,15 @@ domain:    DESIGN.md D2: only valid version strings, nothing from the unspecifie
 verdict observables: sign of every operator / version_compare, a == b => hash(a) == hash(b).
                      (for whatever string the object currently holds, whatever was compared before)
 diagnostic only: hash collisions of unequal versions; an assignment that raises or does not produce the
-           intended string (C14's subject) only skips the comparisons that depend on it.
+           intended string (C14's subject) only skips the comparisons that depend on it; likewise a related
+           object that PRINTS another string after its relative was assigned (full aliasing: printing is C14's
+           subject, the comparisons then follow the printed string) only skips its comparisons.
 """
+import bz2
 import copy
+import gzip
+import io
+import lzma
 import random
 import os
 import re
@@ -108,8 +149,8 @@ import core
 
 MANIFEST = dict(
     technique="TLA+ spec over code points (dpkg reference Verrevcmp/DpkgCmp + implementation layer transcribed from NativeVersion + Canon hash-key design + object layer with Assign recomputing the cached key) model-checked by TLC on all pairs/triples up to a bound and on the closed state space of two mutable objects; TLC-emitted cases and assignments replayed into Version/version_compare/hash on long-lived, re-used, mutated objects; recorded comparisons over the full alphabet validated by TLC (TraceDpkgVersion); dpkg --compare-versions as external oracle",
-    text="TLC enumerates every pair of single-component versions up to 3 (thorough 4) characters over 0 1 9 a . ~, every pair of complete versions (4 epochs x 3-6 revisions x upstream <= 2 over 0 1 ~, thorough 0 1 A a + . ~, with ':' and '-' where allowed) and every triple of a smaller universe, and checks that the transcription of NativeVersion's algorithm agrees with dpkg's, that the order is antisymmetric, total and transitive, and that the canonical hash key is exactly the kernel of the order (and that the implementation's key induces the same partition). An object-level layer (object = string + cached key; assignment of full_version or of one component, boundary-moving values included, recomputes the key from the decomposition of the recomposed string; a refused assignment leaves the object untouched) is explored to a fixed point, so agreement and hash consistency hold after any sequence of accepted and refused assignments. All 24 025 pairs of part strings up to 3 characters over 0 1 a . ~ are replayed in upstream and in revision position; a seed-dependent sample of the larger enumerations plus all pairs of the small universe is replayed, with order-isomorphic concrete characters, into the six rich comparisons, version_compare and hash(): every pair twice with other comparisons in between, both operand orders, on pooled long-lived objects that meet many partners and are partly re-created, with plain-string operands, and on short-lived temporaries; TLC's assignment transitions are replayed as compare / assign / compare on the same object. Thousands of random and near-equal pairs/triples/quadruples (length up to ~45, leading zeros, '~' chains, epoch 0 vs absent, revision 0 vs absent, epochs beyond 2^32) are executed on the real code the same way, including an object that is walked through every string of the trace by assignment, and each recorded comparison is validated by TLC on the concrete code points of the string the object holds at that moment.",
-    note="Small-scope for the exhaustive part (alphabet of 7-8 code points, bounded length; object layer: 48/80 versions, one mutated object); payload beyond it is sampled. Numbers are compared as digit strings in the reference (TLC integers are 32 bit); the implementation layer's int() is only model-checked on short runs. Trusted: TLC, the order-isomorphic concretizer, the observation wrapper, dpkg where present. Hash collisions of unequal versions are not a violation; an assignment that fails or recomposes another string (C14) only skips the dependent comparisons. Spec-level negative controls (HashOnString, TildeOrderZero, StaleKey) and corrupted control traces are required to fail in every run.",
+    text="TLC enumerates every pair of single-component versions up to 3 (thorough 4) characters over 0 1 9 a . ~, every pair of complete versions (4 epochs x 3-6 revisions x upstream <= 2 over 0 1 ~, thorough 0 1 A a + . ~, with ':' and '-' where allowed) and every triple of a smaller universe, and checks that the transcription of NativeVersion's algorithm agrees with dpkg's, that the order is antisymmetric, total and transitive, and that the canonical hash key is exactly the kernel of the order (and that the implementation's key induces the same partition). An object-level layer (object = string + cached key; assignment of full_version or of one component, boundary-moving values included, recomputes the key from the decomposition of the recomposed string; a refused assignment leaves the object untouched) is explored to a fixed point, so agreement and hash consistency hold after any sequence of accepted and refused assignments; one object may be derived from the other, live one (copy construction, copy, deepcopy, pickle) and the two are independent from then on -- every such transition is replayed with the real objects, source or copy assigned, the other observed. All 24 025 pairs of part strings up to 3 characters over 0 1 a . ~ are replayed in upstream and in revision position; a seed-dependent sample of the larger enumerations plus all pairs of the small universe is replayed, with order-isomorphic concrete characters, into the six rich comparisons, version_compare and hash(): every pair twice with other comparisons in between, both operand orders, on pooled long-lived objects that meet many partners and are partly re-created, with plain-string operands, and on short-lived temporaries; TLC's assignment transitions are replayed as compare / assign / compare on the same object. Thousands of random and near-equal pairs/triples/quadruples (length up to ~45, leading zeros, '~' chains, epoch 0 vs absent, revision 0 vs absent, epochs beyond 2^32) are executed on the real code the same way, including an object that is walked through every string of the trace by assignment, and each recorded comparison is validated by TLC on the concrete code points of the string the object holds at that moment.",
+    note="Small-scope for the exhaustive part (alphabet of 7-8 code points, bounded length; object layer: 48/80 versions, one mutated object); payload beyond it is sampled. Numbers are compared as digit strings in the reference (TLC integers are 32 bit); the implementation layer's int() is only model-checked on short runs. Trusted: TLC, the order-isomorphic concretizer, the observation wrapper, dpkg where present. Hash collisions of unequal versions are not a violation; an assignment that fails or recomposes another string (C14) only skips the dependent comparisons. Spec-level negative controls (HashOnString, TildeOrderZero, StaleKey, NoResplit, PartialOnReject, SharedOnCopy; two per quick run, rotating) and corrupted control traces are required to fail in every run.",
     design="5 (C03)")
 
 WORKERS = min(8, core.NCPU)
@@ -275,8 +316,164 @@ def _make_obj(v, k):
         return _copy.copy(ds.Version(v))
     if name == "deepcopy":
         return _copy.deepcopy(ds.Version(v))
-    ch = changelog.Changelog(CHANGELOG_BLOCK % v)
-    return (ch.version, ch.get_version(), ch.versions[0])[k % 3]
+    kk = _mix(k, v)              # (k itself is always 22 modulo 24 here)
+    if kk % 4:
+        ch = parse_changelog(CHANGELOG_BLOCK % v, kk // 4)
+        return (ch.version, ch.get_version(), ch.versions[0])[k % 3]
+    # a (newer) block in front, padded: the header line that carries v ends at a block boundary
+    ch = parse_changelog(aligned_changelog([PAD_VERSION, v], kk // 4, 1), kk // 8)
+    return (ch.versions[1], list(ch)[1].version, ch[1].version)[k % 3]
+
+
+DERIVERS = ("Version(o)", "copy.copy(o)", "NativeVersion(o)", "Version(BaseVersion(o))", "copy.deepcopy(o)",
+            "changelog.Version(o)", "copy.copy(Version(o))", "pickle", "ChangeBlock(version=o).version")
+# rotation: the ways that hand the SAME parsed state on come more often than the serialising ones
+DERIVE_ROTATION = [0, 1, 2, 3, 0, 1, 5, 4, 6, 1, 0, 7, 2, 8]
+DERIVED = {}
+
+
+def derive(o, k):
+    """a second version object obtained FROM the live object o through the k-th public way; o stays in
+    use (specification: Derive21 / Derive12 -- same string, same key, and independent from then on)"""
+    name = DERIVERS[DERIVE_ROTATION[k % len(DERIVE_ROTATION)]]
+    if isinstance(o, Broken):
+        return o
+    try:
+        return _derive(o, name)
+    except Exception as e:                          # noqa: broad on purpose
+        return Broken(str(o), name, e)
+
+
+def _derive(o, name):
+    import copy as _copy
+    import pickle
+    from debian import changelog, debian_support as ds
+    DERIVED[name] = DERIVED.get(name, 0) + 1
+    if name == "Version(o)":
+        return ds.Version(o)
+    if name == "copy.copy(o)":
+        return _copy.copy(o)
+    if name == "NativeVersion(o)":
+        return ds.NativeVersion(o)
+    if name == "Version(BaseVersion(o))":
+        return ds.Version(ds.BaseVersion(o))
+    if name == "copy.deepcopy(o)":
+        return _copy.deepcopy(o)
+    if name == "changelog.Version(o)":
+        return changelog.Version(o)
+    if name == "copy.copy(Version(o))":
+        return _copy.copy(ds.Version(o))
+    if name == "pickle":
+        return pickle.loads(pickle.dumps(o))
+    return changelog.ChangeBlock(package="pkg", version=o).version
+
+
+# ---- notes/SIZE_STRESS.md part 4: the changelog text reaches the parser through every kind of input /
+# file object it accepts, and line ends are steered onto block boundaries (the version that comes out
+# is form-independent, so TLC's expectation does not change)
+FILE_KINDS = ("str", "bytes", "io.StringIO", "io.BytesIO", "list of str lines", "generator of bytes lines",
+              "real file, text mode", "real file, binary, buffering=0", "BufferedReader over a raw stream with short reads",
+              "gzip.GzipFile", "bz2.BZ2File", "lzma.LZMAFile", "SpooledTemporaryFile", "generator of str lines without newlines")
+FILE_KIND_SEEN = {}
+ALIGNED_SEEN = {}
+SCRATCH = None                   # ctx.work, set by run() / replay()
+PAD_VERSION = "99~pad"
+ALIGN_AT = (512, 4096, 8192, 1024, 8192, 2048, 16384, 4096, 8192, 32768, 65536, 131072)
+
+
+def _mix(k, *strs):
+    """a deterministic scramble of a counter and some strings (rotations must not run in lock step)"""
+    import zlib
+    return zlib.crc32(("%d|" % k + "|".join(strs)).encode("utf-8"))
+
+
+class _ShortReads(io.RawIOBase):
+    """a raw stream that hands out 1..7 bytes per call"""
+
+    def __init__(self, data, salt):
+        self.data, self.pos, self.salt = data, 0, salt
+
+    def readable(self):
+        return True
+
+    def readinto(self, b):
+        n = min(len(b), 1 + (self.pos + self.salt) % 7, len(self.data) - self.pos)
+        b[:n] = self.data[self.pos:self.pos + n]
+        self.pos += n
+        return n
+
+
+def aligned_changelog(versions, k, which):
+    """changelog text with one block per version; a change line of block `which - 1` is padded so that
+    the header line of block `which` (or, every third time, the whole text) ENDS one before / exactly
+    at / one after an offset 2^j"""
+    blocks = [CHANGELOG_BLOCK % x for x in versions]
+    at = ALIGN_AT[k % len(ALIGN_AT)]
+    if at > 8192 and k % 5 != 1:
+        at = 8192                                      # the big ones only now and then
+    target = at + (k // len(ALIGN_AT)) % 3 - 1
+    whole = k % 7 in (2, 5)
+    upto = "".join(blocks) if whole else "".join(blocks[:which]) + blocks[which].split("\n", 1)[0] + "\n"
+    pad = target - len(upto)
+    if pad < 0:
+        return "".join(blocks)
+    blocks[which - 1] = blocks[which - 1].replace("  * change\n", "  * change" + "x" * pad + "\n")
+    name = "%s ends at offset %d%+d" % ("text" if whole else "header line of block %d" % (which + 1), at, target - at)
+    ALIGNED_SEEN[name] = ALIGNED_SEEN.get(name, 0) + 1
+    return "".join(blocks)
+
+
+def parse_changelog(text, k):
+    """debian.changelog.Changelog over `text`, handed in through the k-th kind of input"""
+    import tempfile
+    from debian import changelog
+    kind = FILE_KINDS[k % len(FILE_KINDS)]
+    if kind == "real file, binary, buffering=0" and len(text) > 10000:
+        kind = "io.BytesIO"                            # (unbuffered readline() is one system call per byte)
+    FILE_KIND_SEEN[kind] = FILE_KIND_SEEN.get(kind, 0) + 1
+    data = text.encode("utf-8")
+    lines = text.split("\n")
+    lines = [x + "\n" for x in lines[:-1]] + ([lines[-1]] if lines[-1] else [])
+    close = None
+    if kind == "str":
+        src = text
+    elif kind == "bytes":
+        src = data
+    elif kind == "io.StringIO":
+        src = io.StringIO(text)
+    elif kind == "io.BytesIO":
+        src = io.BytesIO(data)
+    elif kind == "list of str lines":
+        src = lines
+    elif kind == "generator of bytes lines":
+        src = (x.encode("utf-8") for x in lines)
+    elif kind == "generator of str lines without newlines":
+        src = (x.rstrip("\n") for x in lines)
+    elif kind == "real file, text mode":
+        src = close = tempfile.TemporaryFile(mode="w+", encoding="utf-8", newline="", dir=SCRATCH)
+        src.write(text)
+        src.seek(0)
+    elif kind == "real file, binary, buffering=0":
+        src = close = tempfile.TemporaryFile(mode="w+b", buffering=0, dir=SCRATCH)
+        src.write(data)
+        src.seek(0)
+    elif kind == "BufferedReader over a raw stream with short reads":
+        src = io.BufferedReader(_ShortReads(data, k))
+    elif kind == "gzip.GzipFile":
+        src = close = gzip.GzipFile(fileobj=io.BytesIO(gzip.compress(data, 1)))
+    elif kind == "bz2.BZ2File":
+        src = close = bz2.BZ2File(io.BytesIO(bz2.compress(data, 1)))
+    elif kind == "lzma.LZMAFile":
+        src = close = lzma.LZMAFile(io.BytesIO(lzma.compress(data, preset=0)))
+    else:
+        src = close = tempfile.SpooledTemporaryFile(max_size=4096, mode="w+b", dir=SCRATCH)
+        src.write(data)
+        src.seek(0)
+    try:
+        return changelog.Changelog(src)
+    finally:
+        if close is not None:
+            close.close()
 
 
 class Pool:
@@ -439,6 +636,8 @@ CONTROLS = (   # (module, cfg, switch, the only invariant kept, ...)
     ("DpkgVersionObj", "MC_DpkgVersion_obj_control.cfg", "NoResplit", "HashConsistent"),
     ("DpkgVersionObj", "MC_DpkgVersion_obj_control.cfg", "PartialOnReject", "Agree"),
     ("DpkgVersionObj", "MC_DpkgVersion_obj_control.cfg", "PartialOnReject", "HashConsistent"),
+    ("DpkgVersionObj", "MC_DpkgVersion_obj_control.cfg", "SharedOnCopy", "Agree"),
+    ("DpkgVersionObj", "MC_DpkgVersion_obj_control.cfg", "SharedOnCopy", "HashConsistent"),
 )
 
 
@@ -453,8 +652,8 @@ def negative_controls(ctx):
         txt = "\n".join(l for l in txt.splitlines() if not l.startswith("INVARIANT") or l.split()[1] == inv)
         return core.run_tlc(module, txt, ctx.work, workers=1, java_opts=JAVA_SHORT, want_tags=set(), timeout=600)
 
-    # quick: one control per module, rotating with the seed; thorough: all eight
-    todo = CONTROLS if ctx.tier != "quick" else (CONTROLS[ctx.seed % 2], CONTROLS[2 + ctx.seed % 6])
+    # quick: one control per module, rotating with the seed; thorough: all ten
+    todo = CONTROLS if ctx.tier != "quick" else (CONTROLS[ctx.seed % 2], CONTROLS[2 + (ctx.seed + 6) % 8])
     with ThreadPoolExecutor(max_workers=len(todo)) as ex:
         results = list(ex.map(one, todo))
     out = {}
@@ -595,30 +794,44 @@ def assign(obj, how, value, alias=False):
             obj.debian_revision = None
 
 
-def run_mut(pool, sv, how, exp0, exp1, k):
+def run_mut(pool, sv, how, exp0, exp1, k, kin="none", eq_row=None):
     """sv = [s1, s2, assigned value, new s1]; exp = (OPS row fwd, OPS row rev, hash equal) before / after.
+    kin (TLC's MUT line): "none" -- two unrelated objects; "2from1" -- b is DERIVED from the live object a
+    (then a, the source, is assigned); "1from2" -- a is derived from the pooled object b (then a, the copy, is
+    assigned).  In both cases s1 = s2 and b must go on comparing and hashing as s2 says, also against a
+    fresh object of its own string (eq_row: TLC's OPS row of sign 0).
     Returns ("ok" | "skip" | "bad", detail)"""
-    from debian.debian_support import Version
     s1, s2, arg, s1n = sv
-    a = fresh(s1)
-    b = pool.get(s2)
+    if kin == "2from1":
+        a = make_obj(s1, k)
+        b = derive(a, k // 2)
+        rel = "b derived from a, "
+    elif kin == "1from2":
+        b = pool.get(s2)
+        a = derive(b, k // 2)
+        rel = "a derived from b, "
+    else:
+        a = fresh(s1)
+        b = pool.get(s2)
+        rel = ""
 
-    def look(exp, stage, first=True):
+    def look(x, y, sy, exp, names, stage, first=True):
         fwd, rev, heq = exp
-        todo = [("a <op> b", lambda: observe_pair(a, b, a, b, cmp=first), fwd),
-                ("b <op> a", lambda: observe_pair(b, a, b, a, cmp=False), rev)]
+        todo = [("%s <op> %s" % names, lambda: observe_pair(x, y, x, y, cmp=first), fwd),
+                ("%s <op> %s" % names[::-1], lambda: observe_pair(y, x, y, x, cmp=False), rev)]
         if k % 3 == 0 and not first:
-            todo.append(("a <op> 'b' (str operand)", lambda: observe_pair(a, s2, a, b, cmp=False), fwd))
+            todo.append(("%s <op> '%s' (str operand)" % names, lambda: observe_pair(x, sy, x, y, cmp=False), fwd))
         elif k % 3 == 1 and not first:
-            todo.append(("'b' <op> a (str operand)", lambda: observe_pair(s2, a, b, a, cmp=False), rev))
+            todo.append(("'%s' <op> %s (str operand)" % names[::-1], lambda: observe_pair(sy, x, y, x, cmp=False), rev))
         for where, f, e in todo:
             obs = f()
             msg = judge(obs, e, heq)
             if msg:
-                return "%s, %s" % (where, stage), obs, msg
+                return "%s%s, %s" % (rel, where, stage), obs, msg
         return None
 
-    bad = look(exp0, "before the assignment") or look(exp0, "before the assignment, second time", False)
+    ab = ("a", "b")
+    bad = look(a, b, s2, exp0, ab, "before the assignment") or look(a, b, s2, exp0, ab, "before the assignment, second time", False)
     if bad:
         return "bad", bad
     try:
@@ -627,7 +840,13 @@ def run_mut(pool, sv, how, exp0, exp1, k):
         return "skip", "assignment %s=%r on Version(%r) raised %s" % (how, arg, s1, type(e).__name__)
     if str(a) != s1n:
         return "skip", "assignment %s=%r on Version(%r) gives %r, not %r" % (how, arg, s1, str(a), s1n)
-    bad = look(exp1, "AFTER the assignment") or look(exp1, "AFTER the assignment, second time", False)
+    if kin != "none" and str(b) != s2:
+        return "skip", "assignment %s=%r on Version(%r): the related object (%s) now prints %r" % (how, arg, s1, kin, str(b))
+    bad = look(a, b, s2, exp1, ab, "AFTER the assignment") or look(a, b, s2, exp1, ab, "AFTER the assignment, second time", False)
+    if not bad and kin != "none":
+        same = (eq_row, eq_row, True)
+        bad = (look(b, fresh(s2), s2, same, ("b", "a fresh object of b's own string"), "AFTER the assignment to a")
+               or look(a, fresh(s1n), s1n, same, ("a", "a fresh object of a's own string"), "AFTER the assignment to a"))
     if bad:
         return "bad", bad
     return "ok", None
@@ -638,12 +857,17 @@ def junk_value(k):
     return [" ", "1 0", "x_y", [], b"1.0", ("1", "0"), {"1.0"}][k % 7]
 
 
-def run_rej(pool, sv, how, exp, eq_row, k):
-    """REJ line: a holds sv[0]; the assignment of sv[2] must be refused and leave a exactly as it was.
+def run_rej(pool, sv, how, exp, eq_row, k, kin="none"):
+    """REJ line: a holds sv[0]; the assignment of sv[2] must be refused and leave a exactly as it was
+    (kin as in run_mut: b derived from a / a derived from b; both must be what they were).
     Returns ("ok" | "skip" | "bad", detail)"""
     s1, s2, arg = sv
-    a = make_obj(s1, k)
-    b = pool.get(s2)
+    if kin == "1from2":
+        b = pool.get(s2)
+        a = derive(b, k // 2)
+    else:
+        a = make_obj(s1, k)
+        b = derive(a, k // 2) if kin == "2from1" else pool.get(s2)
     value = junk_value(k) if arg == " " else arg
 
     def look(x, y, sx, exp, stage, first=True):
@@ -671,6 +895,10 @@ def run_rej(pool, sv, how, exp, eq_row, k):
     same = (eq_row, eq_row, True)
     bad = (look(a, b, s1, exp, "AFTER the rejected assignment") or look(a, b, s1, exp, "AFTER the rejected assignment, second time", False)
            or look(a, fresh(s1), s1, same, "AFTER the rejected assignment, b = a fresh object of a's own string"))
+    if not bad and kin != "none":
+        if str(b) != s2:
+            return "skip", "rejected assignment %s=%r on Version(%r): the related object (%s) now prints %r" % (how, value, s1, kin, str(b))
+        bad = look(b, fresh(s2), s2, same, "AFTER the rejected assignment to a (%s), a := b, b := a fresh object of b's own string" % kin)
     if bad:
         return "bad", bad
     try:
@@ -692,20 +920,23 @@ def replay_rejs(ctx, rejs, ops):
     for idx, m in enumerate(rejs):
         if len(ctx.violations) >= ctx.max_violation_files:
             break
-        v1, v2, how, arg, ref0, rev0, ceq0 = m
+        v1, v2, how, arg, ref0, rev0, ceq0, kin = m
         per_how[how] = per_how.get(how, 0) + 1
-        ctx.case_seen(("rej", v1, v2, how, arg), True)
+        if kin != "none":
+            per_how["related objects (%s)" % kin] = per_how.get("related objects (%s)" % kin, 0) + 1
+        ctx.case_seen(("rej", v1, v2, how, arg, kin), True)
         if idx % CHUNK == CHUNK - 1:
             pool.churn(rng)
         sv = concretize(rng, [v1, v2, arg], canonical=(idx % 2 == 0))
         n += 1
-        st, detail = run_rej(pool, sv, how, (ops[ref0], ops[rev0], ceq0), ops[0], idx)
+        st, detail = run_rej(pool, sv, how, (ops[ref0], ops[rev0], ceq0), ops[0], idx, kin)
         if st == "skip":
             ctx.drift(detail)
         elif st == "bad":
             where, obs, msg = detail
+            pool.objs.pop(sv[1], None)
             ctx.violation({"kind": "rej", "strings": sv, "how": how, "k": idx, "expected": (ops[ref0], ops[rev0], ceq0),
-                           "equal_row": ops[0], "where": where, "observed": obs},
+                           "equal_row": ops[0], "where": where, "observed": obs, "kin": kin},
                           "a=Version(%r), b=Version(%r); REJECTED assignment a.%s = %r: %s: %s"
                           % (sv[0], sv[1], how, junk_value(idx) if sv[2] == " " else sv[2], where, msg))
     if rejs:
@@ -723,9 +954,11 @@ def replay_muts(ctx, muts, ops, nconc):
     for idx, m in enumerate(muts):
         if len(ctx.violations) >= ctx.max_violation_files:
             break
-        v1, v2, how, arg, v1n, ref0, rev0, ceq0, ref1, rev1, ceq1 = m
+        v1, v2, how, arg, v1n, ref0, rev0, ceq0, ref1, rev1, ceq1, kin = m
         per_how[how] = per_how.get(how, 0) + 1
-        ctx.case_seen(("mut", v1, v2, how, arg), v1 != v1n)
+        if kin != "none":
+            per_how["related objects (%s)" % kin] = per_how.get("related objects (%s)" % kin, 0) + 1
+        ctx.case_seen(("mut", v1, v2, how, arg, kin), v1 != v1n)
         if idx % CHUNK == CHUNK - 1:
             pool.churn(rng)
         for c in range(nconc):
@@ -742,13 +975,14 @@ def replay_muts(ctx, muts, ops, nconc):
             exp0 = (ops[ref0], ops[rev0], ceq0)
             exp1 = (ops[ref1], ops[rev1], ceq1)
             n += 1
-            st, detail = run_mut(pool, sv, how, exp0, exp1, idx + c)
+            st, detail = run_mut(pool, sv, how, exp0, exp1, idx + c, kin, ops[0])
             if st == "skip":
                 ctx.drift(detail)
             elif st == "bad":
                 where, obs, msg = detail
+                pool.objs.pop(sv[1], None)         # (it may be the damaged one)
                 ctx.violation({"kind": "mut", "strings": sv, "how": how, "k": idx + c, "expected_before": exp0,
-                               "expected_after": exp1, "where": where, "observed": obs},
+                               "expected_after": exp1, "where": where, "observed": obs, "kin": kin, "equal_row": ops[0]},
                               "a=Version(%r), b=Version(%r); assignment a.%s = %r (a becomes %r): %s: %s"
                               % (sv[0], sv[1], how, sv[2], sv[3], where, msg))
                 break
@@ -973,7 +1207,9 @@ def collect(objs, strs):
              "nset": len(set(objs)) if len(set(objs)) == len(dict.fromkeys(objs)) else 0,
              "idx": objs.index(probe) + 1 if probe in objs else 0, "clidx": 0}
         if all(len(x) < 200 for x in strs):
-            ch = changelog.Changelog("".join(CHANGELOG_BLOCK % x for x in strs))
+            salt = _mix(n, strs[0], strs[-1])
+            ch = parse_changelog(aligned_changelog(strs, salt // 3, 1 + (salt // 7) % (n - 1)) if n > 1 and salt % 3 == 0 else
+                                 "".join(CHANGELOG_BLOCK % x for x in strs), salt // 5)
             blk = ch[strs[-1]] if n % 2 else ch[probe]       # lookup by version EQUALITY, str or Version key
             q["clidx"] = [i for i, b in enumerate(ch) if b is blk][0] + 1
         return q
@@ -988,9 +1224,15 @@ def record_trace(strs):
     operands HOLD at that moment:
       1. long-lived objects, every ordered pair, and an object with itself
       2. a plain-string operand on either side / fresh temporaries
-      3. one more object m walks through every string of the trace by assignment (alternately
-         full_version and component-wise) and is compared, both ways, with every long-lived object
-         after each assignment -- including the object holding the same string (equal, equal hashes)
+      3. one more object m -- on two traces of three DERIVED from the live long-lived object 0 through
+         a rotating public way (Version(o), copy.copy(o) ...; specification: Derive12, the copy is
+         assigned and the source observed) -- walks through every string of the trace by assignment
+         (alternately full_version and component-wise) and is compared, both ways, with every
+         long-lived object after each assignment -- including the object holding the same string
+         (equal, equal hashes).  Before each assignment a SNAPSHOT is derived from m (Derive21: the
+         source is assigned, the copy observed); after it the snapshot must compare with m, and with a
+         fresh object of its own string, as the string it was taken at says; the first snapshot is
+         kept over the whole walk
       4. half of the long-lived objects are deleted and re-created; every ordered pair again"""
     from debian.debian_support import Version
     n = len(strs)
@@ -1013,11 +1255,15 @@ def record_trace(strs):
             ev(i, j, strs[i], pool[j], fresh(strs[i]), pool[j], "str <op> Version")
         else:
             events.append(_event(i, j, observe(strs[i], strs[j]), "fresh temporaries"))
-    m = make_obj(strs[0], salt + 3)
+    m = derive(pool[0], salt) if salt % 3 else make_obj(strs[0], salt + 3)
+    M = "m (derived from the live object 1)" if salt % 3 else "m"
     for j in range(1, n):
-        ev(0, j, m, pool[j], m, pool[j], "m before any assignment")
+        ev(0, j, m, pool[j], m, pool[j], M + " before any assignment")
+    cur, snap0 = 0, None
     for t in list(range(1, n)) + [0]:
         how = "full" if (t + len(strs[t])) % 2 else "parts"
+        snap = derive(m, salt + 2 * t + 1)
+        snap0 = snap if snap0 is None else snap0
         try:
             assign(m, how, strs[t])
         except Exception as e:
@@ -1027,9 +1273,23 @@ def record_trace(strs):
             notes.append("assigning %r by %s gives %r" % (strs[t], how, str(m)))
             break
         for j in range(n):
-            ev(t, j, m, pool[j], m, pool[j], "m assigned (%s) <op> object" % how)
+            ev(t, j, m, pool[j], m, pool[j], M + " assigned (%s) <op> object" % how)
             if j != t:
-                ev(j, t, pool[j], m, pool[j], m, "object <op> m assigned (%s)" % how)
+                ev(j, t, pool[j], m, pool[j], m, "object <op> " + M + " assigned (%s)" % how)
+        if str(snap) == strs[cur]:        # (printing is C14's subject)
+            if t % 2:
+                ev(cur, t, snap, m, snap, m, "snapshot derived from m before the assignment <op> m assigned (%s)" % how)
+            else:
+                ev(t, cur, m, snap, m, snap, "m assigned (%s) <op> snapshot derived from m before the assignment" % how)
+            f = fresh(strs[cur])
+            ev(cur, cur, snap, f, snap, f, "snapshot derived from m before the assignment (%s) <op> fresh object of its own string" % how)
+        else:
+            notes.append("a snapshot of m taken at %r prints %r after m was assigned %r" % (strs[cur], str(snap), strs[t]))
+        cur = t
+    else:
+        if str(snap0) == strs[0]:
+            ev(0, 0, snap0, m, snap0, m, "first snapshot of m <op> m after the whole walk")
+            ev(0, n - 1, snap0, pool[n - 1], snap0, pool[n - 1], "first snapshot of m <op> object")
     for i in range(0, n, 2):
         pool[i] = None
         pool[i] = make_obj(strs[i], salt + 7 + i)
@@ -1083,14 +1343,26 @@ def boundary_assign(obj, v, op, salt):
     return True
 
 
+def related_pair(v, salt):
+    """(obj, twin, what twin is): two live objects holding v, one DERIVED from the other through a
+    rotating public way; obj is the one that gets assigned afterwards -- alternately the source
+    (specification: Derive21) and the copy (Derive12)"""
+    if salt % 2:
+        obj = make_obj(v, salt + len(v))
+        return obj, derive(obj, salt // 2), "twin derived from the object before the assignment"
+    twin = make_obj(v, salt + len(v))
+    return derive(twin, salt // 2), twin, "live source the object was derived from"
+
+
 def record_boundary(v, partner, op, salt):
     """a trace [v, partner, what v becomes]: an object holding v is compared (caches warm), gets one
     boundary-moving component assignment, and is then compared -- judged against the string it now
     PRINTS -- with the partner, with a fresh object built from its own string (equal, equal hashes)
-    and with a fresh object of its former string.  None: op not applicable / rejected by the code /
+    and with a fresh object of its former string; its twin (related_pair) must still compare as the
+    former string says.  None: op not applicable / rejected by the code /
     result outside the domain (C14's subject)."""
-    from debian.debian_support import Version
-    obj, pp = make_obj(v, salt + len(v)), make_obj(partner, salt + 2)
+    obj, twin, rel = related_pair(v, salt)
+    pp = make_obj(partner, salt + 2)
     events = []
 
     def ev(i, j, L, R, src, hl=None, hr=None):
@@ -1116,6 +1388,9 @@ def record_boundary(v, partner, op, salt):
     ev(0, 2, old, obj, "fresh object of its former string <op> " + src)
     ev(2, 1, obj, partner, src + " <op> str", obj, pp)
     ev(2, 1, obj, pp, src + ", second time")
+    if str(twin) == v:                   # (printing is C14's subject)
+        ev(0, 2, twin, obj, rel + " <op> " + src)
+        ev(0, 0, twin, old, rel + " <op> fresh object of its own string, " + src)
     strs = [v, partner, d]
     return {"vs": [cps(x) for x in strs], "strs": strs, "events": events, "notes": [], "bop": [op, salt],
             "coll": collect([old, pp, obj], strs)}
@@ -1204,7 +1479,8 @@ def record_reject(v, partner, how, salt):
                   "revision": join([ep, up, value])}[how]
         if in_domain(target) or unspec(target) or (how == "full" and ep is not None and value.startswith("x:")):
             return None
-    obj, pp = make_obj(v, salt + len(v)), make_obj(partner, salt + 2)
+    obj, twin, rel = related_pair(v, salt + 1)
+    pp = make_obj(partner, salt + 2)
     events = []
 
     def ev(i, j, L, R, src, hl=None, hr=None):
@@ -1225,12 +1501,17 @@ def record_reject(v, partner, how, salt):
     ev(0, 0, obj, fresh(v), src + " <op> fresh object of its own string")
     ev(0, 0, fresh(v), obj, "fresh object of its own string <op> " + src)
     ev(0, 1, obj, partner, src + " <op> str", obj, pp)
+    if str(twin) == v:
+        ev(0, 0, twin, obj, rel + " <op> " + src)
+        ev(0, 1, twin, pp, rel + " <op> partner, " + src)
     try:
         obj.full_version = partner
     except Exception as e:                 # noqa
         events.append(_event(1, 1, {"exc": "a later valid assignment raised %s" % type(e).__name__}, src))
     ev(1, 1, obj, pp, "object after a later valid assignment")
     ev(1, 0, obj, fresh(v), "object after a later valid assignment")
+    if str(twin) == v:
+        ev(0, 1, twin, obj, rel + " <op> object after a later valid assignment")
     strs = [v, partner]
     return {"vs": [cps(x) for x in strs], "strs": strs, "events": events, "notes": [], "rej": [how, salt],
             "coll": collect([fresh(v), pp], strs)}
@@ -1405,9 +1686,11 @@ def dpkg_crosscheck(ctx, traces, rejected_idx, want):
 # ------------------------------------------------------------------ the check
 
 def run(ctx):
+    global SCRATCH
     quick = ctx.tier == "quick"
     rng = ctx.rng
     ctx.import_repo()
+    SCRATCH = ctx.work
     ctx.assumptions += [
         "exhaustive part is small-scope: 5-9 code points per configuration (0 1 9 a . ~ / 0 1 ~ : - / thorough 0 1 A a + . ~ : -), bounded lengths; CASE and MUT samples chosen by a seed-dependent checksum class; upper case and other digits/letters come in through the concretizer",
         "inputs are valid version strings per DESIGN D2 and outside its unspecified zone (re-checked by TLC: TDomain)",
@@ -1516,13 +1799,18 @@ def run(ctx):
                       "recorded comparison not explained by the dpkg reference (DpkgVersion.tla): %s observed %r"
                       % (where, {k: v for k, v in e.items() if k not in ("i", "j", "src")}))
     ctx.extra["objects_per_constructor"] = dict(CONSTRUCTED)
+    ctx.extra["derived_objects_per_way"] = dict(DERIVED)
+    ctx.extra["file_object_kinds"] = dict(FILE_KIND_SEEN)
+    ctx.extra["aligned_cases"] = dict(ALIGNED_SEEN)
 
     # 4. dpkg itself as a second oracle (also validates the transcription of the reference)
     dpkg_crosscheck(ctx, traces, {i for i, _ in bad}, 150 if quick else 5000)
 
 
 def replay(ctx, case):
+    global SCRATCH
     ctx.import_repo()
+    SCRATCH = ctx.work
     kind = case.get("kind")
     if kind == "case":
         pool = Pool()
@@ -1536,14 +1824,15 @@ def replay(ctx, case):
         return None
     if kind == "rej":
         for k in range(case["k"], case["k"] + 7):
-            st, detail = run_rej(Pool(), case["strings"], case["how"], tuple(case["expected"]), case["equal_row"], k)
+            st, detail = run_rej(Pool(), case["strings"], case["how"], tuple(case["expected"]), case["equal_row"], k,
+                                 case.get("kin", "none"))
             if st == "bad":
                 return "%s: %s" % (detail[0], detail[2])
         return None
     if kind == "mut":
-        for k in range(6):
+        for k in range(case.get("k", 0), case.get("k", 0) + 2 * len(DERIVE_ROTATION)):
             st, detail = run_mut(Pool(), case["strings"], case["how"], tuple(case["expected_before"]),
-                                 tuple(case["expected_after"]), k)
+                                 tuple(case["expected_after"]), k, case.get("kin", "none"), case.get("equal_row"))
             if st == "bad":
                 return "%s: %s" % (detail[0], detail[2])
         return None
